@@ -10,6 +10,10 @@ import traceback
 from . import common
 
 
+# properties whose thorough-scope streams are affordable on every change to their anchored files (a few minutes)
+DEEP_ON_CHANGE = {"C01", "C02", "C05", "C06", "C08", "C09", "C10", "C16", "C20"}
+
+
 def generic_replay(mod, prop: str, tier: str, path: str) -> int:
     """Re-run the check with the seed recorded in the replay file and report whether the recorded failure recurs.
 
@@ -53,6 +57,18 @@ def main() -> int:
             return mod.replay(a.replay)
         return generic_replay(mod, prop, a.tier, a.replay)
     ck = common.Check(prop, a.tier, seed)
+    # has the code the model mirrors been edited since the model was validated?  (harness/anchors.py)
+    try:
+        from . import anchors
+        ch = anchors.changed(prop)
+    except Exception:  # noqa: BLE001 - the fingerprint is advisory, never a verdict
+        ch = []
+    ck.extra["anchored_files_changed_since_model_validation"] = ch
+    if ch:
+        ck.notes.append("anchored source changed since the model was validated: " + ", ".join(ch))
+        if a.tier == "quick" and prop in DEEP_ON_CHANGE and os.environ.get("VERIF_NO_DEEP") != "1":
+            ck.quick = False      # widen the correspondence / oracle streams to the thorough scope for this run
+            ck.notes.append("correspondence streams widened to the thorough scope because of that change")
     try:
         mod.check(ck)
     except Exception:  # an internal error of the machinery is not a verdict: exit 2
